@@ -31,6 +31,10 @@ TOLERANCES = {"grid_states/shared_times/ys0": "bit-identical", "interior_interpo
 def _case(draw, tier):
     spec, combo = draw(solve.spec_and_combo(dtypes=("float64", "float32")))
     tset = draw(solve.time_setup(max_steps=24 if tier == "quick" else 64, dtypes=(spec["dtype"],)))
+    if draw(st.sampled_from([False, False, False, True])):
+        # times far from zero: |t| / dt is what decides how much precision time differences carry in the state's dtype
+        shift = draw(st.sampled_from([100.0, 1000.0, 86400.0]))
+        tset = dict(tset, t0=tset["t0"] + shift, t1=tset["t1"] + shift, shifted=True)
 
     def out_times():
         k = draw(st.integers(0, 6))
